@@ -92,11 +92,18 @@ def rmw(isa, fl, src, b, x, s, d):
     if "rmw" not in m:
         return None
     t = memtext(isa, b, x, s, d)
-    if isa == "x86":
-        ins = _base("%s %s" % (m["rmw"], t)) if fl == "real" else _base("%s %%%s, %s" % (m["rmw"], wide(isa, src), t))
+    one_operand = False
+    if isa == "x86" and fl == "real":
+        # incq mem has an ISA entry of its own; adcq/sbbq reg, mem are only described by their un-suffixed
+        # register form (reached through the suffix fall-back on the memory-substituted operands)
+        mn = ["incq", "adcq", "sbbq"][(d // 8 + len(b) + (s if x else 0)) % 3]
+        one_operand = mn == "incq"
+        ins = _base("%s %s" % (mn, t)) if one_operand else _base("%s %%%s, %s" % (mn, wide(isa, src), t))
+    elif isa == "x86":
+        ins = _base("%s %%%s, %s" % (m["rmw"], wide(isa, src), t))
     else:
         ins = _base("%s %s, %s" % (m["rmw"], wide(isa, src), t))
-    ins["R"] |= {b} | ({x} if x else set()) | (set() if (isa == "x86" and fl == "real") else {src})
+    ins["R"] |= {b} | ({x} if x else set()) | (set() if one_operand else {src})
     ref = {"b": b, "x": x or "", "s": s, "d": d, "t": t}
     ins["ST"] = [dict(ref)]
     ins["LD"] = [dict(ref)]
